@@ -40,8 +40,13 @@ func main() {
 		sem <- struct{}{}
 		go func(i int) { defer wg.Done(); defer func() { <-sem }(); concurrent(c, i) }(i)
 	}
+	for i := 0; i < c.Pick(2, 8); i++ {
+		wg.Add(1)
+		sem <- struct{}{}
+		go func(i int) { defer wg.Done(); defer func() { <-sem }(); handoff(c, i) }(i)
+	}
 	wg.Wait()
-	c.Finish("(A) sequential: seeded op sequences (puts in arbitrary nonce order, duplicates, same-nonce different hash, gap filling, removals, blocks produced from the pool, reorganisations that rewind account state) through the hub against a per-account reference model, compared after EVERY op with the pool snapshot taken under its own lock, the producer fetch and the reported totals; (B) concurrent, race-detector build: 8 submitter goroutines with overlapping nonces and duplicates + query goroutines (+ a producer building blocks from the pool) inside the node process; the recorded put/exist/get history is checked for linearizability per account with porcupine, structural invariants are checked at quiescent points, race reports with both stacks in aergo code are violations. A case = one op (A) or one history (B); non-trivial = op/history after which the pool held >=1 tx; distinct = hash(scenario, step)",
+	c.Finish("(A) sequential: seeded op sequences (puts in arbitrary nonce order, duplicates, same-nonce different hash, gap filling, removals, blocks produced from the pool, reorganisations that rewind account state) through the hub against a per-account reference model, compared after EVERY op with the pool snapshot taken under its own lock, the producer fetch and the reported totals; (B) concurrent, race-detector build: 8 submitter goroutines with overlapping nonces and duplicates + query goroutines (+ a producer building blocks from the pool) inside the node process; the recorded put/exist/get history is checked for linearizability per account with porcupine, structural invariants are checked at quiescent points, race reports with both stacks in aergo code are violations; (C) hand-off: 24 senders with exactly one pooled tx each, mined by a block built from the pool while each sender's next nonce is submitted concurrently (the pool drops and re-creates the per-account lists): snapshot invariants at quiescence and every submission answered ok is pooled or mined. A case = one op (A) or one history (B); non-trivial = op/history after which the pool held >=1 tx; distinct = hash(scenario, step)",
 		c.Pick(150, 1500),
 		"race reports entirely inside third-party code (aergo-actor mpsc queue) are ignored",
 		"porcupine timeouts are inconclusive, not violations")
@@ -148,8 +153,8 @@ func sequential(c *vf.Ctx, si int) {
 		return
 	}
 	nacct := 4
-	state := make([]uint64, nacct)            // state nonce per account
-	model := make([]map[uint64]*mtx, nacct)   // pooled txs per account
+	state := make([]uint64, nacct)          // state nonce per account
+	model := make([]map[uint64]*mtx, nacct) // pooled txs per account
 	for i := range model {
 		model[i] = map[uint64]*mtx{}
 	}
@@ -189,7 +194,7 @@ func sequential(c *vf.Ctx, si int) {
 		}
 		views, problems := viewOf(snap)
 		if len(problems) > 0 {
-			return "invariant/"+norm(problems[0]), strings.Join(problems, "\n  "), false
+			return "invariant/" + norm(problems[0]), strings.Join(problems, "\n  "), false
 		}
 		st, _ := nut.MempoolStat()
 		if st != nil && (st.Total != snap.Length || st.Orphan != snap.Orphan) {
@@ -533,7 +538,7 @@ var linModel = porcupine.Model{
 		}
 		return false, s
 	},
-	Equal: func(a, b interface{}) bool { return stateKey(a.(linState)) == stateKey(b.(linState)) },
+	Equal:             func(a, b interface{}) bool { return stateKey(a.(linState)) == stateKey(b.(linState)) },
 	DescribeOperation: func(in, out interface{}) string { return fmt.Sprintf("%+v -> %v", in, out) },
 }
 
